@@ -123,6 +123,20 @@ def fate(node, pm, fn, depth=0):
         is_recv = bool(args) and (args[0] is node or peel(args[0]) is node)
         if is_recv and c in PROPAGATING:
             return fate(p, pm, fn, depth + 1)
+        if is_recv and c in ("core::result::Result::is_err", "core::result::Result::is_ok"):
+            # `if r.is_err() { return Err(..) }` / `if !r.is_ok() {..}` / `if r.is_ok() {..} else { Err(..) }`: the error branch
+            # of the test leaves with an error - that is handling, not swallowing
+            q, child, neg = pm.get(id(p)), p, False
+            while q is not None and (q.get("k") in ("Ref", "Deref", "Coerce", "Block") or (q.get("k") == "Un" and q.get("op") == "Not")):
+                if q.get("k") == "Un":
+                    neg = not neg
+                child, q = q, pm.get(id(q))
+            if q is not None and q.get("k") == "If" and q.get("c") is child:
+                err_when_true = c.endswith("is_err") != neg
+                branch = q.get("t") if err_when_true else q.get("f")
+                if branch is not None and any(x.get("k") in ("Return", "Try") or (x.get("k") == "Adt" and x.get("variant") == "Err")
+                                              for x in walk(branch)):
+                    return ("matched-ok", q)
         if is_recv and c in SWALLOWING:
             return ("swallowed:" + SWALLOWING[c], p)
         if is_recv and c in PANICKING:
